@@ -141,7 +141,7 @@ def int_cases():
                 body = (setup + "\n" if setup else "") + use
             decls = gdecl + decls
             cases.append(Case(f"int/{kind}/{pos}", body, exp if const else None, decls=decls, accept=const,
-                              reject_re=None if const else "compile-time|constant|const"))
+                              reject_re=None if const else ("globals must be constant" if gdecl else "compile-time|constant|const")))
     # comptime parameter used in const positions
     uid += 1
     cases.append(Case("int/comptime-param/array-length", f"cp{uid}(3);", "3 ",
